@@ -20,9 +20,8 @@ extern "C" size_t __sanitizer_get_allocated_size(const volatile void* p);
 extern "C" size_t __sanitizer_get_current_allocated_bytes();
 // freed memory is overwritten with a known byte (the ASan counterpart of the runner's M_PERTURB fill): a value read from an object that
 // was already destroyed then shows up as garbage in the result instead of as the stale - and plausible - old value.  GMP is not
-// instrumented, so ASan itself does not see such reads.  suppress_equal_pcs=0: in recover mode ASan otherwise reports a faulty
-// instruction only once per process, which would hide every occurrence after the first (and the mirror's run of the same library code).
-extern "C" const char* __asan_default_options() { return "max_free_fill_size=1048576:free_fill_byte=85:suppress_equal_pcs=0"; }
+// instrumented, so ASan itself does not see such reads.
+extern "C" const char* __asan_default_options() { return "max_free_fill_size=1048576:free_fill_byte=85"; }
 static size_t block_size(const void* p) { return __sanitizer_get_allocated_size(p); }
 static size_t heap_bytes() { return __sanitizer_get_current_allocated_bytes(); }
 #else
@@ -454,16 +453,19 @@ struct Step
    std::string pretty;
    void mismatch(const std::string& r, const std::string& d) { if(rule.empty()) { rule = r; diff = d; } }
 };
+// The mirror call runs first.  In recover mode ASan reports a faulty instruction only once per process: a defect inside the C++ library
+// that the C call and the C++ call reach alike is then reported under the mirror (and silently repeated by the C call), whereas an
+// access that only the C function performs - its own array loops, or library code driven by a wrong length - is reported under the C call.
 static void run_pair(Step& st, const std::function<void()>& cfn, const std::function<void()>& mfn)
 {
    size_t h0 = heap_bytes();
-   st.c = guarded(cfn);
-   st.heapC = (long)heap_bytes() - (long)h0;
-   st.asanC = take_asan_report();
-   h0 = heap_bytes();
    st.m = guarded(mfn);
    st.heapM = (long)heap_bytes() - (long)h0;
    st.asanM = take_asan_report();
+   h0 = heap_bytes();
+   st.c = guarded(cfn);
+   st.heapC = (long)heap_bytes() - (long)h0;
+   st.asanC = take_asan_report();
 }
 template <class T> static void cmp_scalar(Step& st, const char* what, T c, T m)
 {
@@ -1206,11 +1208,14 @@ static SeqResult run_seq(const Seq& q, Ctx& c, uint64_t beforeHash = 0)
       res.st = state_of(*mp);
       res.alive = !diverged;
       // every sequence ends with SoPlex_free on the handle
+      CallOutcome g = guarded([&] { mp.reset(); });
+      std::string am = take_asan_report();
       CallOutcome f = guarded([&] { SoPlex_free(h); });
       std::string ar = take_asan_report();
-      if(f.sig) c.violation("crash:sig" + std::to_string(f.sig) + ":SoPlex_free[end-of-sequence]", q.str(), trace);
+      if(g.sig) { mp.release(); c.violation(std::string(f.sig ? "crash-both" : "crash-mirror") + ":sig" + std::to_string(g.sig) + ":~SoPlex[end-of-sequence]", q.str(), trace); }
+      if(f.sig && !g.sig) c.violation("crash:sig" + std::to_string(f.sig) + ":SoPlex_free[end-of-sequence]", q.str(), trace);
+      if(!am.empty()) c.violation("mirror-" + am + "@~SoPlex[end-of-sequence]", q.str(), trace);
       if(!ar.empty()) c.violation(ar + "@SoPlex_free[end-of-sequence]", q.str(), trace);
-      mp.reset();
    }
    else
    {
